@@ -65,4 +65,15 @@ MUTANTS = [
      "                if (maybe_entry_for_dir.is_dir() and\n"
      "                        directory_prune.matches_w_trace(current_file_model.as_file_matcher_model()).value):",
      '_FilesGeneratorForRecursive.generate : loop#1 invariant[preserved]'),
+    ('c15-syntax-create-append-swapped', 'C15', 'exactly_lib/impls/types/files_source/syntax.py',
+     "EXPLICIT_CREATE = instruction_arguments.ASSIGNMENT_OPERATOR\nEXPLICIT_APPEND = instruction_arguments.APPEND_OPERATOR",
+     "EXPLICIT_CREATE = instruction_arguments.APPEND_OPERATOR\nEXPLICIT_APPEND = instruction_arguments.ASSIGNMENT_OPERATOR",
+     'FILE-LIST: `=` creates, `+=` appends'),
+    ('c15-parse-no-token-appends', 'C15', 'exactly_lib/impls/types/files_source/impl/parse_file_list.py',
+     "            return ModificationType.CREATE, None", "            return ModificationType.APPEND, None",
+     'ParserOfFileMaker._parse_contents : ensures['),
+    ('c15-parse-dir-maker-ignores-modification', 'C15', 'exactly_lib/impls/types/files_source/impl/parse_file_list.py',
+     "    return _fm_dir.DirFileMakerSdv(modification, contents)",
+     "    return _fm_dir.DirFileMakerSdv(ModificationType.CREATE, contents)",
+     'ParserOfFileMaker.parse : ensures['),
 ]
